@@ -24,7 +24,9 @@ RULE = ("TLC enumerates every obstacle descriptor of MC_Occupancy.tla: dynamic o
         "5 shapes x {static, dynamic initial, trajectory state KS/Custom}.  GAP g between the initial time step and the "
         "first prediction step (trajectory / set-based / phantom first step t0+1+g): g = 0 with the full product, g in "
         "{1, 2} x all t0 x all predictions x a reduced set (3 shapes x 2 quarter turns; thorough: all), phantoms with "
-        "g 0..2, an uncertain trajectory state behind a gap of 2.  Each is queried with occupancy_at_time and "
+        "g 0..2, an uncertain trajectory state behind a gap of 2; NEGATIVE gaps (prediction overlaps the initial step or "
+        "starts before it): (t0, g) in {(1,-1), (1,-2), (2,-1), (2,-2), (2,-3)} x 2 shapes x {KS, PM trajectories of 1..3, "
+        "set-based of 1..2}.  Each is queried with occupancy_at_time and "
         "state_at_time for t in 0..8 (before, t0, gap, inside, last, after).  Scenarios: every subset of <= 3 (thorough: 4) "
         "of 9 reduced descriptors (one set-based with gap 1, one trajectory with gap 2) x "
         "occupancies_at_time_step (t 0..5 x 5 roles), obstacle_states_at_time_step (t 0..5), obstacles_by_role_and_type "
@@ -33,7 +35,8 @@ RULE = ("TLC enumerates every obstacle descriptor of MC_Occupancy.tla: dynamic o
         "bystander>> x ONE public modification - obstacle / prediction / scenario.translate_rotate (3 lattice motions), "
         "prediction.trajectory = another trajectory (2), prediction.shape = another shape (2), update_prediction (2), "
         "update_initial_state(new pose at t0+1) alone / followed by update_prediction(trajectory | set-based), "
-        "obstacle.initial_state = new pose (same step; next step when there is a gap), obstacle.prediction = None | "
+        "update_initial_state(t0+1 | t0+2) followed by update_prediction(the OLD prediction, which then overlaps the new "
+        "initial step), obstacle.initial_state = new pose (same step; next step when there is a gap), obstacle.prediction = None | "
         "trajectory | set-based - "
         "for trajectory targets (2 shapes x 2 (t0, gap) x 4 state kinds), set-based, no-prediction, static, phantom and "
         "environment targets; each executed cold (modify, query) and warm (query, modify, query): occupancy_at_time / "
@@ -50,6 +53,9 @@ ASSUMPTIONS = ["poses on the integer lattice with quarter-turn orientations; poi
                "region x start/mid/end of the orientation interval); discs are placed as shapely 64-gons",
                "history: custom point-mass states (CustomState with velocity components only) are only translated, not "
                "rotated (whether translate_rotate moves a state rigidly is C05's subject)",
+               "predictions that overlap the initial time step or start before it (gap < 0; constructed that way or "
+               "re-attached after update_initial_state): initial state at the initial step, None before, prediction only "
+               "afterwards; a constructor that refuses such a prediction is accepted",
                "obstacles_by_position_intervals: an occupancy without a centre (stored ShapeGroup) is an EITHER band; "
                "intervals are closed"]
 
@@ -92,7 +98,8 @@ def _rnd_shape(rng):
 def _rnd_ob(rng):
     t0 = rng.randint(0, 5)
     n = rng.randint(0, 6)
-    g = rng.choice([0, 0, 1, 2, 3, 5])                            # gap before the first predicted step
+    g = rng.choice([0, 0, 1, 2, 3, 5, -1, -2])                    # gap before the first predicted step; < 0: overlap
+    g = max(g, -t0 - 1)                                           # time steps are natural numbers
     sh = _rnd_shape(rng)
     x, y, q = rng.randint(-20, 20), rng.randint(-20, 20), rng.randint(0, 3)
     init = _rnd_state(rng, "initial", t0, x, y, q)
@@ -114,7 +121,7 @@ def _rnd_ob(rng):
             pred = {"k": "set", "g": g, "occs": occs}
     o = {"id": rng.randint(1, 50), "role": role, "type": "car" if role == "dynamic" else "parkedVehicle", "t0": t0,
          "shape": sh, "init": init, "pred": pred}
-    return {"kind": "ob", "o": o, "tmax": t0 + g + n + 2, "obl": [], "src": "random"}
+    return {"kind": "ob", "o": o, "tmax": max(t0, t0 + g + n) + 2, "obl": [], "src": "random"}
 
 
 def cases(ctx):
@@ -362,10 +369,11 @@ def _where(o, t):
         return "any"
     g = o["pred"].get("g", 0)
     last = o["t0"] + g + _plen(o)
+    ovl = "(overlap)" if o["role"] == "dynamic" and g < 0 and o["t0"] + 1 + g <= t else ""   # the prediction covers t <= t0
     if t == o["t0"] and o["role"] == "dynamic":
-        return "t0"
+        return "t0" + ovl
     if t <= o["t0"]:
-        return "before"
+        return "before" + ovl
     if t > last:
         return "after"
     if t <= o["t0"] + g:
@@ -406,7 +414,7 @@ def _exec_ob(case):
     except Exception as ex:                                       # the initial occupancy is computed by the constructor
         s = o.get("init")
         sig = _unc_sig(o, s) if s and s["unc"] != "none" else "construct/" + _sig("occupancy_at_time", o, o["t0"])
-        e = {"op": "occupancy_at_time", "o": o, "t": o["t0"], "res": _exc(ex), "sig": sig}
+        e = {"op": "occupancy_at_time", "o": o, "t": o["t0"], "res": _exc(ex), "sig": sig, "construct": 1}
         if o["t0"] in obl:
             e["obs"] = []
         return {"ev": [e]}
@@ -486,6 +494,8 @@ def _exec_sc(case):
 def _mutator(m):
     if m["k"] == "move":
         return m["via"] + ".translate_rotate"
+    if m["k"] == "update_initial_state" and m.get("reuse"):
+        return "update_initial_state+update_prediction(old)"
     if m["k"] == "update_initial_state" and m["pred"]["k"] != "none":
         return "update_initial_state+update_prediction"
     return m["k"]
@@ -512,8 +522,11 @@ def _apply(m, sc, ob, o):
     elif m["k"] == "set_prediction":
         ob.prediction = _prediction({"pred": m["pred"], "shape": o["shape"]})           # None for "none"
     elif m["k"] == "update_initial_state":
+        old = ob.prediction
         ob.update_initial_state(_state(m["state"]))
-        if m["pred"]["k"] != "none":
+        if m.get("reuse"):
+            ob.update_prediction(old)                                # the earlier-computed prediction is attached again
+        elif m["pred"]["k"] != "none":
             ob.update_prediction(_prediction({"pred": m["pred"], "shape": o["shape"]}))
     elif m["k"] == "set_initial_state":
         ob.initial_state = _state(m["state"])
